@@ -227,7 +227,7 @@ class Harness:
             self.ds.update_bucket(bid, **kw)
             m = self.ref.b[bid]["meta"]
             for f, mf in (("type_id", "type"), ("client", "client"), ("hostname", "hostname"), ("name", "name"), ("data", "data")):
-                if op.get(f):
+                if op.get(f) is not None:            # a field supplied replaces the stored one (also an empty data table)
                     m[mf] = copy.deepcopy(op[f])
         elif k == "delete_bucket":
             self.ds.delete_bucket(bid)
@@ -421,7 +421,7 @@ class OpGen:
                         "model_id": i, "event": self.event()}
         if x < 0.86:
             return {"op": "update_bucket", "bucket": bid, "client": r.choice([None, "c2"]), "hostname": r.choice([None, "h2"]),
-                    "type_id": r.choice([None, "t2"]), "name": r.choice([None, "n2"]), "data": r.choice([None, {"z": 1}])}
+                    "type_id": r.choice([None, "t2"]), "name": r.choice([None, "n2"]), "data": r.choice([None, {"z": 1}, {}, {"n": {"m": []}}])}
         if x < 0.89 and len(buckets) > 2:
             return {"op": "delete_bucket", "bucket": bid}
         if x < 0.92:
@@ -478,7 +478,7 @@ def random_history(backend, seed, steps, focus, tmp):
     try:
         for n in range(steps):
             op = gen.next(h)
-            if op["op"] == "update_bucket" and not any(op.get(f) for f in ("type_id", "client", "hostname", "name", "data")):
+            if op["op"] == "update_bucket" and not any(op.get(f) is not None for f in ("type_id", "client", "hostname", "name", "data")):
                 continue
             ops.append(op)
             try:
@@ -696,7 +696,7 @@ def c06(backend, seed, steps, tmp, trickle=False):
             op = gen.next(h)
             if op["op"] in ("window", "missing"):
                 continue
-            if op["op"] == "update_bucket" and not any(op.get(f) for f in ("type_id", "client", "hostname", "name", "data")):
+            if op["op"] == "update_bucket" and not any(op.get(f) is not None for f in ("type_id", "client", "hostname", "name", "data")):
                 continue
             if trickle and op["op"] not in ("insert", "replace", "delete", "create"):
                 continue            # (operations that read first flush by themselves)
